@@ -979,3 +979,43 @@ func lemmaC04_joinaccept_cipher(key AES128Key, v JoinAcceptPayload, mic MIC) {
 	verifAssert(w.RXDelay == orig.RXDelay, "rxdelay")
 	verifAssert(w.CFList == nil, "no-cflist")
 }
+
+// ---------------------------------------------------------------------------
+// C11: the database representation (driver.Valuer / sql.Scanner) of the identifier types round-trips
+// ---------------------------------------------------------------------------
+
+func lemmaC11_sql_NetID(n NetID) {
+	v, err := n.Value()
+	verifAssert(err == nil, "value")
+	var m NetID
+	err2 := m.Scan(v)
+	verifAssert(err2 == nil, "scan")
+	verifAssert(m == n, "equal")
+}
+
+func lemmaC11_sql_DevAddr(a DevAddr) {
+	v, err := a.Value()
+	verifAssert(err == nil, "value")
+	var m DevAddr
+	err2 := m.Scan(v)
+	verifAssert(err2 == nil, "scan")
+	verifAssert(m == a, "equal")
+}
+
+func lemmaC11_sql_EUI64(e EUI64) {
+	v, err := e.Value()
+	verifAssert(err == nil, "value")
+	var m EUI64
+	err2 := m.Scan(v)
+	verifAssert(err2 == nil, "scan")
+	verifAssert(m == e, "equal")
+}
+
+func lemmaC11_sql_AES128Key(k AES128Key) {
+	v, err := k.Value()
+	verifAssert(err == nil, "value")
+	var m AES128Key
+	err2 := m.Scan(v)
+	verifAssert(err2 == nil, "scan")
+	verifAssert(m == k, "equal")
+}
